@@ -10,6 +10,8 @@ def run(F, G, tier, seed):
     effects.WRITE_KINDS_CACHE.update(kinds)
     effects.run_c12(chk, F, G)
     effects.run_lvshape(chk, F, G, parts=("modifiable",))
+    effects.run_dupname(chk, F)
+    effects.run_fieldgate(chk, F)
     rid = "R-GATE[C12]"
     chk.rule(rid, "visitInstance: a non-const reference template parameter needs a unique-reference argument")
     effects.run_c13_instance(chk, F, rid)
